@@ -52,6 +52,7 @@ JoinAll(ts) == IF Len(ts) = 1 THEN ts[1] ELSE JoinTy(ts[1], JoinAll(Tail(ts)))
 Comparable(t) == t \in {"int", "float", "bool", "str", "null"}
 Orderable(t)  == t \in {"int", "float", "bool", "null"}   \* strings: equality only in this model
 
+TransOps == {"exp", "log", "log10", "sqrt", "cbrt", "sin", "cos", "tan", "asin", "acos", "atan"}
 StrOps == {"str_starts_with", "str_ends_with", "str_contains", "str_replace_all", "str_len"}
 ElemOps == {"add", "sub", "mul", "truediv", "floordiv", "mod", "neg", "pos", "abs",
             "eq", "ne", "lt", "le", "gt", "ge", "and", "or", "xor", "not",
@@ -89,6 +90,13 @@ FnTy(op, ts) ==
       [] op \in {"str_starts_with", "str_ends_with", "str_contains"} -> IF n = 2 /\ j \in {"str", "null"} THEN "bool" ELSE "ERR"
       [] op = "str_replace_all" -> IF n = 3 /\ j \in {"str", "null"} THEN "str" ELSE "ERR"
       [] op = "str_len" -> IF n = 1 /\ j \in {"str", "null"} THEN "int" ELSE "ERR"
+      [] op \in {"str_upper", "str_lower", "str_strip"} -> IF n = 1 /\ j \in {"str", "null"} THEN "str" ELSE "ERR"
+      [] op = "str_slice" -> IF n = 3 /\ ts[1] \in {"str", "null"} /\ ts[2] \in {"int", "null"} /\ ts[3] \in {"int", "null"} THEN "str" ELSE "ERR"
+      [] op = "pow" -> IF n = 2 /\ j \in {"int", "float"} THEN "float" ELSE IF j = "null" THEN "AMBIG" ELSE "ERR"
+      [] op = "round" -> IF n = 2 /\ ts[1] \in {"int", "float"} /\ ts[2] = "int" THEN ts[1] ELSE "ERR"
+      [] op \in TransOps -> IF n = 1 /\ j \in {"int", "float", "null"} THEN "float" ELSE "ERR"
+      [] op \in {"dt_year", "dt_month", "dt_day"} -> IF n = 1 /\ j \in {"date", "datetime"} THEN "int" ELSE "ERR"
+      [] op \in {"dt_hour", "dt_minute", "dt_second"} -> IF n = 1 /\ j = "datetime" THEN "int" ELSE "ERR"
       [] OTHER -> "ERR"
 
 AggTy(op, t) ==
@@ -285,6 +293,33 @@ ApplyFn(e, vs) ==          \* e: elaborated fn node, vs: argument values (alread
       [] op = "str_replace_all" -> IF SeqAnyU(vs) THEN UNDEF ELSE IF SeqAnyN(vs) THEN NULL
                                    ELSE IF vs[2] = <<>> THEN UNDEF ELSE ReplaceAllStr(vs[1], vs[2], vs[3])
       [] op = "str_len" -> Strict1(vs[1], Len(vs[1]))
+      [] op = "str_upper" -> Strict1(vs[1], UpperStr(vs[1]))
+      [] op = "str_lower" -> Strict1(vs[1], LowerStr(vs[1]))
+      [] op = "str_strip" -> Strict1(vs[1], StripStr(vs[1]))
+      [] op = "str_slice" -> IF SeqAnyU(vs) THEN UNDEF ELSE IF SeqAnyN(vs) THEN NULL ELSE SliceStr(vs[1], vs[2], vs[3])
+      [] op = "pow" ->       \* non-negative integer exponents only (negative: backend dependent / domain error)
+            IF SeqAnyU(pv) THEN UNDEF ELSE IF SeqAnyN(pv) THEN NULL
+            ELSE LET ex == ToRat(e.a[2].ty, vs[2]) bs == ToRat(e.a[1].ty, vs[1]) IN
+                 IF ex.d # 1 \/ ex.n < 0 \/ ex.n > 4 THEN UNDEF ELSE RatPow(bs, ex.n)
+      [] op = "round" ->     \* rounding ties have no backend-independent result
+            IF SeqAnyU(vs) THEN UNDEF ELSE IF IsN(vs[1]) THEN NULL ELSE IF IsN(vs[2]) THEN UNDEF
+            ELSE IF e.a[1].ty = "int" THEN (IF vs[2] >= 0 THEN vs[1] ELSE UNDEF)
+            ELSE IF vs[2] # 0 THEN UNDEF
+            ELSE LET r == vs[1] fl == RatFloor(r) twice == 2 * (r.n - fl * r.d) IN
+                 IF twice = r.d THEN UNDEF ELSE RatOfInt(IF twice < r.d THEN fl ELSE fl + 1)
+      [] op \in TransOps ->  \* value not computed here: null-ness, type and domain only; back ends compared with each other
+            IF IsU(vs[1]) THEN UNDEF ELSE IF IsN(vs[1]) THEN NULL
+            ELSE LET r == ToRat(e.a[1].ty, vs[1]) IN
+                 CASE op \in {"log", "log10"} -> IF r.n <= 0 THEN UNDEF ELSE ANY
+                   [] op = "sqrt" -> IF r.n < 0 THEN UNDEF ELSE ANY
+                   [] op \in {"asin", "acos"} -> IF AbsI(r.n) > r.d THEN UNDEF ELSE ANY
+                   [] OTHER -> ANY
+      [] op = "dt_year" -> Strict1(vs[1], vs[1].y)
+      [] op = "dt_month" -> Strict1(vs[1], vs[1].m)
+      [] op = "dt_day" -> Strict1(vs[1], vs[1].d)
+      [] op = "dt_hour" -> Strict1(vs[1], vs[1].H)
+      [] op = "dt_minute" -> Strict1(vs[1], vs[1].M)
+      [] op = "dt_second" -> Strict1(vs[1], vs[1].S)
       [] op = "hall" -> Fold3(TRUE, vs, TRUE)
       [] op = "hany" -> Fold3(FALSE, vs, FALSE)
       [] op = "clip" ->      \* null stays null; otherwise max(min(x, upper), lower)
